@@ -12,6 +12,8 @@ func runGen2(name string, w *bufio.Writer, rng *prng, n, depth int) bool {
 		genPrinterRandom(w, rng, n, depth, true)
 	case "printer-clean":
 		genPrinterRandom(w, rng, n, depth, false)
+	case "grid":
+		genGrid(w, rng, curSeed, depth)
 	case "q01":
 		genQ01(w, rng, n, depth)
 	case "q02":
